@@ -15,6 +15,8 @@
  */
 #define _GNU_SOURCE
 #include <dlfcn.h>
+#include <fcntl.h>
+#include <execinfo.h>
 #include <errno.h>
 #include <link.h>
 #include <linux/futex.h>
@@ -168,6 +170,11 @@ static void child_after_fork(void)
 
 static void report_deadlock(const char *what)
 {
+    if (getenv("SCHED_DEBUG")) {   /* debugging aid: SCHED_DEBUG=<file> gets the stack of the reported lock attempt */
+        void *bt[24]; int n = backtrace(bt, 24);
+        int fd = open(getenv("SCHED_DEBUG"), O_WRONLY | O_CREAT | O_APPEND, 0666);
+        if (fd >= 0) { backtrace_symbols_fd(bt, n, fd); close(fd); }
+    }
     deadlock_flag = 1;
     if (deadlock_cb) deadlock_cb(what);
 }
@@ -315,6 +322,25 @@ VIS void *sched_generic_point(void *ra, int idx)
 }
 
 /* ------------------------------------------------------------------ interposed symbols */
+/* pthread_atfork() is a stub inside the calling library that ends in __register_atfork(): the moment right AFTER the library has
+ * registered its fork handlers (still inside its one-time initialisation) is a point a thread can be stopped at, too */
+VIS int __register_atfork(void (*prepare)(void), void (*parent)(void), void (*child)(void), void *dso)
+{
+    static int (*real)(void (*)(void), void (*)(void), void (*)(void), void *);
+    if (!real) real = (int (*)(void (*)(void), void (*)(void), void (*)(void), void *)) dlsym(RTLD_NEXT, "__register_atfork");
+    void *ra = __builtin_return_address(0);
+    init_real();
+    int r = real(prepare, parent, child, dso);
+    /* (the registration is the library's if it passes the library's own __dso_handle: the stub is usually reached by a tail call) */
+    if (mode != MODE_OFF && !in_child && !in_point && from_lib2(ra, dso)) {
+        in_point = 1;
+        if (mode == MODE_COOP) { if (my_index >= 0) coop_point('c'); }
+        else if (mode == MODE_PARK && generic_park) park_event();
+        in_point = 0;
+    }
+    return r;
+}
+
 VIS int pthread_mutex_lock(pthread_mutex_t *m)
 {
     init_real();
@@ -323,7 +349,13 @@ VIS int pthread_mutex_lock(pthread_mutex_t *m)
     if (in_child) {
         /* the child of a fork has exactly one thread: a busy lock can never be released */
         int r = real_trylock(m);
-        if (r == EBUSY) { report_deadlock("child of fork(): lock held by a thread that does not exist in the child"); return real_lock(m); }
+        if (r == EBUSY) {
+            if (getenv("SCHED_DEBUG")) {
+                int fd = open(getenv("SCHED_DEBUG"), O_WRONLY | O_CREAT | O_APPEND, 0666);
+                if (fd >= 0) { dprintf(fd, "busy mutex %p kind=%d owner=%d count=%u lock=%d me=%ld pid=%d\n", (void *) m, m->__data.__kind, m->__data.__owner,
+                                       m->__data.__count, m->__data.__lock, (long) syscall(SYS_gettid), (int) getpid()); close(fd); }
+            }
+            report_deadlock("child of fork(): lock held by a thread that does not exist in the child"); return real_lock(m); }
         return r;
     }
     if (mode == MODE_PARK) {
